@@ -150,8 +150,8 @@ func init() {
 				[]string{"revisions controlled by another owner are never written"},
 				[]string{"write on a listed revision"}),
 		},
-		Stubs: ctlStubs,
-		Assumptions: []string{"the fake API server applies owner-reference patches by recognising the two patch shapes the controller sends", "getPatch/ApplyRevision models as in C03"},
+		Stubs:        ctlStubs,
+		Assumptions:  []string{"the fake API server applies owner-reference patches by recognising the two patch shapes the controller sends", "getPatch/ApplyRevision models as in C03"},
 		OutsideClaim: []string{"more than the bounded number of pods/revisions", "arbitrary label keys and names (fixed constants / finite shapes)"},
 	})
 	register(&spec{
@@ -161,8 +161,8 @@ func init() {
 				[]string{"a paused set is not written at all", "no pod or claim write for a set being deleted"},
 				[]string{"paused set reconciled", "deleting set reconciled"}),
 		},
-		Stubs: ctlStubs,
-		Assumptions: []string{"getPatch/ApplyRevision models as in C03"},
+		Stubs:        ctlStubs,
+		Assumptions:  []string{"getPatch/ApplyRevision models as in C03"},
 		OutsideClaim: []string{"the resume-and-converge half of the statement reduces to C02 because a paused reconcile writes nothing and the controller keeps no state (cross-reference)"},
 	})
 	register(&spec{
@@ -171,8 +171,8 @@ func init() {
 			syncRun("sync", []int{1, 2, 1, yUndefaulted | yHealthDims, nC15}, []int{2, 2, 1, yUndefaulted | yHealthDims, nC15},
 				[]string{"reconcile never panics"}, []string{"reconcile returned"}),
 		},
-		Stubs: ctlStubs,
-		Assumptions: []string{"replicas and revisionHistoryLimit are non-nil (the CRD schema requires/defaults them)", "getPatch/ApplyRevision models as in C03"},
+		Stubs:        ctlStubs,
+		Assumptions:  []string{"replicas and revisionHistoryLimit are non-nil (the CRD schema requires/defaults them)", "getPatch/ApplyRevision models as in C03"},
 		OutsideClaim: []string{"huge replica counts (allocation)", "arbitrary template content", "a nil selector (the CRD requires the field)"},
 	})
 
@@ -242,10 +242,14 @@ func init() {
 				Asserts: []string{"exactly the sets the event concerns are enqueued"},
 				Covers:  []string{"event kind 0", "event kind 1", "event kind 2", "event kind 3", "event kind 4", "event kind 5", "event kind 6"}},
 			{Name: "events-invalid-selector", Pkg: pkgCtl, Func: "VH_Events", Quick: []int{1}, Thorough: []int{1},
-				Bounds:  func(a []int) string { return "as above with a third set whose selector is invalid in the same namespace" },
+				Bounds: func(a []int) string {
+					return "as above with a third set whose selector is invalid in the same namespace"
+				},
 				Asserts: []string{"exactly the sets the event concerns are enqueued"}},
 			{Name: "worker", Pkg: pkgCtl, Func: "VH_Worker", Quick: []int{0}, Thorough: []int{0},
-				Bounds:  func(a []int) string { return "one processNextWorkItem over sync with up to one failing API call (six error kinds) at any call position; set present, paused or gone" },
+				Bounds: func(a []int) string {
+					return "one processNextWorkItem over sync with up to one failing API call (six error kinds) at any call position; set present, paused or gone"
+				},
 				Asserts: []string{"a failed reconcile is put back with backoff", "a successful reconcile clears its backoff", "the key is always marked done"},
 				Covers:  []string{"reconcile with a failing API call", "reconcile without failures"}},
 		},
@@ -286,19 +290,29 @@ func init() {
 				},
 				Asserts: []string{"every written slot is read back", "nothing but the written slots is read back", "union contains the added slots", "other annotations are untouched by the slot helpers", "pause flag reads back true", "un-pausing removes the annotation"}},
 			{Name: "defaulting-area0", Pkg: pkgAppsV1, Func: "VH_Defaults", Quick: []int{0}, Thorough: []int{0},
-				Bounds:  func(a []int) string { return "SetObjectDefaults_StatefulSet twice on an object varied over: set-level fields (policy/strategy strings in {\"\", valid, \"Foo\"}, rollingUpdate nil / empty / arbitrary int32 partition, replicas and history limit nil or arbitrary int32)" },
+				Bounds: func(a []int) string {
+					return "SetObjectDefaults_StatefulSet twice on an object varied over: set-level fields (policy/strategy strings in {\"\", valid, \"Foo\"}, rollingUpdate nil / empty / arbitrary int32 partition, replicas and history limit nil or arbitrary int32)"
+				},
 				Asserts: []string{"defaulting twice equals defaulting once"}, Covers: []string{"defaulted"}},
 			{Name: "defaulting-area1", Pkg: pkgAppsV1, Func: "VH_Defaults", Quick: []int{1}, Thorough: []int{1},
-				Bounds:  func(a []int) string { return "SetObjectDefaults_StatefulSet twice on an object varied over: pod-level fields (DNS/restart policy, scheduler, security context, arbitrary int64 grace period)" },
+				Bounds: func(a []int) string {
+					return "SetObjectDefaults_StatefulSet twice on an object varied over: pod-level fields (DNS/restart policy, scheduler, security context, arbitrary int64 grace period)"
+				},
 				Asserts: []string{"defaulting twice equals defaulting once"}, Covers: []string{"defaulted"}},
 			{Name: "defaulting-area2", Pkg: pkgAppsV1, Func: "VH_Defaults", Quick: []int{2}, Thorough: []int{2},
-				Bounds:  func(a []int) string { return "SetObjectDefaults_StatefulSet twice on an object varied over: one volume of each of 10 source kinds incl. none (defaults to EmptyDir), optional modes" },
+				Bounds: func(a []int) string {
+					return "SetObjectDefaults_StatefulSet twice on an object varied over: one volume of each of 10 source kinds incl. none (defaults to EmptyDir), optional modes"
+				},
 				Asserts: []string{"defaulting twice equals defaulting once"}, Covers: []string{"defaulted"}},
 			{Name: "defaulting-area3", Pkg: pkgAppsV1, Func: "VH_Defaults", Quick: []int{3}, Thorough: []int{3},
-				Bounds:  func(a []int) string { return "SetObjectDefaults_StatefulSet twice on an object varied over: container basics (3 image literals, pull policy, termination fields, port with arbitrary int32 ports and protocol) with and without hostNetwork and an init container" },
+				Bounds: func(a []int) string {
+					return "SetObjectDefaults_StatefulSet twice on an object varied over: container basics (3 image literals, pull policy, termination fields, port with arbitrary int32 ports and protocol) with and without hostNetwork and an init container"
+				},
 				Asserts: []string{"defaulting twice equals defaulting once"}, Covers: []string{"defaulted"}},
 			{Name: "defaulting-area4", Pkg: pkgAppsV1, Func: "VH_Defaults", Quick: []int{4}, Thorough: []int{4},
-				Bounds:  func(a []int) string { return "SetObjectDefaults_StatefulSet twice on an object varied over: container env fieldRef, probes with arbitrary int32 timings and HTTP/gRPC actions, lifecycle hook" },
+				Bounds: func(a []int) string {
+					return "SetObjectDefaults_StatefulSet twice on an object varied over: container env fieldRef, probes with arbitrary int32 timings and HTTP/gRPC actions, lifecycle hook"
+				},
 				Asserts: []string{"defaulting twice equals defaulting once"}, Covers: []string{"defaulted"}},
 		},
 		Assumptions:  []string{"encoding/json round trip of []int32 is lossless (std library contract)", "resource lists are nil (quantity rounding uses arbitrary-precision decimals)"},
